@@ -927,7 +927,20 @@ def unroll_circuit_op_greedy_earliest(
     unrolled_circuit = circuit.unfreeze(copy=True)
     unrolled_circuit.batch_replace(batch_replace)
     unrolled_circuit.batch_remove(batch_remove)
-    unrolled_circuit.batch_insert(batch_insert)
+    # Place the operations of each unrolled circuit operation as early as possible, but never
+    # behind an operation that came after it: inserting them all at index i with the EARLIEST
+    # strategy lets later ones share moments i+1, i+2, ... and end up behind operations of those
+    # moments.  Going from the last index to the first keeps the earlier indices valid.
+    ops_by_index: dict[int, list[cirq.Operation]] = defaultdict(list)
+    for i, unrolled_ops in batch_insert:
+        ops_by_index[i].extend(unrolled_ops)
+    for i in sorted(ops_by_index, reverse=True):
+        head = unrolled_circuit[: i + 1]
+        head.append(ops_by_index[i], strategy=circuits.InsertStrategy.EARLIEST)
+        if not head[i].operations:
+            # The moment only held circuit operations and their contents went to earlier moments.
+            del head[i]
+        unrolled_circuit = head + unrolled_circuit[i + 1 :]
     return _to_target_circuit_type(unrolled_circuit, circuit)
 
 
